@@ -12,6 +12,66 @@ def n_pairs():
     return sum(min(128, L - 24) - 3 + 1 for L in range(100, 256))
 
 
+def scn_names(params):
+    """Engine A: the real client started with -M L (options in any order, with and without -m) through the whole handshake and
+    some upstream traffic against the real server: every query name it emits is a legal name of at most L characters that
+    ends in the tunnel domain."""
+    import random
+    from simnet import proto, scen, tunnelscn
+    from simnet.scen import US
+    cfg = params["cfg"]
+    seed = params["seed"]
+    out = {"violations": [], "nontrivial": [], "stats": {"client_queries_checked": 0}, "evaluations": 0, "sets": {}}
+
+    def plan(t, sim, rng):
+        k = sim.k
+        tt = k.now + US // 2
+        for i in range(10):
+            fr = tunnelscn.pick_frame(t, rng, "cli", (params["idx"] << 20) | (i + 1), 0, sizes=[100, 600, 1000, 1134])
+            k.at(tt, k.offer_tun, t.clients[0].name, fr, i + 1)
+            tt += rng.choice([200000, 900000])
+        return tt + 6 * US
+
+    t = tunnelscn.run_tunnel("c08n-%d" % params["idx"], cfg, seed, plan)
+    try:
+        k = t.sim.k
+        L = cfg["M"]
+        dl = [x.lower() for x in proto.labels_from_dotted(t.sim.domain.encode())]
+        longest = 0
+        for ev in k.log:
+            if ev[1] != "send" or ev[2] != "cli0":
+                continue
+            d = ev[3]["data"]
+            if d[:3] == proto.RAW_MAGIC:
+                continue
+            try:
+                labels, _off = proto.read_name(d, 12)
+            except proto.ParseError:
+                continue            # C10 judges well-formedness
+            n = sum(len(x) for x in labels) + max(len(labels) - 1, 0)
+            out["stats"]["client_queries_checked"] += 1
+            out["evaluations"] += 1
+            longest = max(longest, n)
+            if n > L:
+                out["violations"].append(("C08:name-over-L:real-client", "the client, started with %s, sent a query name of %d characters (limit %d): %s..."
+                                          % (" ".join(tunnelscn.client_opts(cfg)), n, L, b".".join(labels)[:40].decode("latin1")),
+                                          {"seed": seed, "cfg": cfg, "time_us": ev[0]}))
+                break
+            if [x.lower() for x in labels[-len(dl):]] != dl:
+                out["violations"].append(("C08:domain-suffix:real-client", "query name does not end in the tunnel domain", {"seed": seed, "cfg": cfg}))
+                break
+        if not t.ok and not out["violations"]:
+            out["inconclusive"] = (t.why or "?").split(":")[0]
+            return out
+        if out["stats"]["client_queries_checked"] > 20:
+            out["nontrivial"].append(repr(("real-client", L, cfg["m"] is not None, cfg.get("opt_shuffle") is not None, longest > L - 8)))
+        if params["idx"] < 2:
+            out["sample"] = {"engine": "A", "options": tunnelscn.client_opts(cfg), "longest_name": longest, "limit": L}
+        return out
+    finally:
+        t.sim.close()
+
+
 def run(ctx):
     res = core.Result()
     res.rule = (
@@ -63,6 +123,33 @@ def run(ctx):
             unitrun.run_sharded(res, "C08", drv, 1, lambda i: ["one", m.group(1), m.group(2), m.group(3), m.group(4)], jobs=1)
             return res
         unitrun.run_sharded(res, "C08", drv, sh, lambda i: ["run", i, sh, ctx.seed, ctx.tier], jobs=sh, timeout=1500)
+        if not ctx.replay:
+            import random
+            from vflib import simrun
+            from simnet import tunnelscn
+            rng = random.Random(ctx.seed * 811 + 8)
+            plist = []
+            for i in range(ctx.pick(48, 3000)):
+                cfg = tunnelscn.gen_config(rng, i + ctx.seed, faults=False, nclients_max=1, allow_raw=False)
+                cfg.update(M=rng.choice([100, 120, 150, 200, 254, 255]), m=rng.choice([None, 100, 600, 1100]), pred=False,
+                           opt_shuffle=rng.getrandbits(16))
+                if cfg["qtype"] in ("CNAME", "A") and cfg["m"] and cfg["m"] > 100:
+                    cfg["m"] = 100
+                plist.append({"idx": i, "seed": ctx.seed * 100000 + i, "cfg": cfg})
+            sysres = core.Result()
+            simrun.run_scenarios(sysres, b, scn_names, plist, jobs=ctx.jobs)
+            simrun.finalize_sets(sysres)
+            res.violations += sysres.violations
+            res.harness_errors += sysres.harness_errors
+            res.evaluations += sysres.evaluations
+            res.inconclusive += sysres.inconclusive
+            for kk, vv in sysres.inconclusive_why.items():
+                res.inconclusive_why[kk] = res.inconclusive_why.get(kk, 0) + vv
+            for sig in sysres.nontrivial:
+                res.nt(sig)
+            for kk, vv in sysres.extra.items():
+                res.extra["engine_a_" + kk] = vv
+            res.samples += sysres.samples[:2]
     for v in res.violations:
         if isinstance(v.witness, dict):
             v.witness.setdefault("seed", ctx.seed)
